@@ -219,6 +219,10 @@ def write_replay(ctx: Ctx, name: str, data: dict) -> str:
 def finish(ctx: Ctx, level_text: str, trusted_base: list[str], assumptions: list[str], rule: str) -> int:
     """step 5/6: decide, print, write evidence"""
     lines = []
+    if os.path.isdir(REPLAY_DIR):
+        for fn in os.listdir(REPLAY_DIR):
+            if fn.startswith(ctx.pid + "_"):
+                os.unlink(os.path.join(REPLAY_DIR, fn))
     for fid, info in sorted(ctx.known_hits.items()):
         lines.append(f"KNOWN-FINDING: property={ctx.pid} {fid}: {info['what']}")
     exit_code = 0
